@@ -17,6 +17,11 @@ CONSTANTS
   DevSleepLimiter = FALSE
   DevWriteLock = TRUE
   DevRouteFirst = FALSE
+  DevCleanupFirst = FALSE
+  DevLegRegistered = FALSE
+  DevBufio = FALSE
+  AttachKinds = {"local"}
+  HoldOn = FALSE
   Gen = FALSE
   Emit = FALSE
 SPECIFICATION LiveSpec
